@@ -633,8 +633,7 @@ func c12Extras(a, b *c12Value, tm map[string]reflect.Type, nm map[string]string,
 	for _, bv := range c12BadValues {
 		out = append(out, &c12Extra{what: bv.what, encBad: bv.v()})
 	}
-	garbage := c14Fixed()
-	small := garbage[:len(garbage)-6]
+	small := c14Small()
 	for i := 0; i < 4; i++ {
 		gb := small[(pick+i*7)%len(small)]
 		out = append(out, &c12Extra{what: "decode of " + hexClip(gb, 24), decIn: gb})
@@ -667,8 +666,7 @@ func c12Extras(a, b *c12Value, tm map[string]reflect.Type, nm map[string]string,
 // in this process at the same moment; every call must return what it returns alone (afterwards, warm).
 func c12ColdErrors(t *testing.T, r *rec.Rec) {
 	c14InitMaps()
-	garbage := c14Fixed()
-	small := garbage[:len(garbage)-6]
+	small := c14Small()
 	n := 8
 	type res struct{ enc, dec []string }
 	results := make([]res, n)
